@@ -1429,16 +1429,23 @@ pub fn mls_family_case(rng: &mut Rng) -> String {
     };
     let ind = unit.repeat(*rng.pick(&[0usize, 2, 4, 6, 10, 20, 40, 60]));
     let nl = *rng.pick(&["\n", "\n", "\n", "\r\n", "\r\n", "\r"]);
+    // one literal in four mixes its terminators (LF, CRLF, CR line by line: "\r\n" directly followed by "\n" etc.)
+    let mixed = rng.chance(1, 4);
+    macro_rules! term {
+        () => {
+            if mixed { *rng.pick(&["\n", "\r\n", "\r", "\n"]) } else { nl }
+        };
+    }
     let mut lit = String::new();
     lit.push_str(q);
-    lit.push_str(nl);
+    { let t = term!(); lit.push_str(t) };
     for i in 0..rng.range(1, 3) {
         match rng.below(9) {
-            0 => lit.push_str(nl),
+            0 => { let t = term!(); lit.push_str(t) },
             6 => {
                 // blank-only line that is NOT a prefix of the indentation (other blank characters, or longer)
                 lit.push_str(*rng.pick(&["\t", " \t ", "\u{3000}", "\u{1}\u{2}", "                                                                  "]));
-                lit.push_str(nl);
+                { let t = term!(); lit.push_str(t) };
             }
             7 => {
                 // characters that Unicode calls spaces but Delphi does not treat as blank
@@ -1451,18 +1458,18 @@ pub fn mls_family_case(rng: &mut Rng) -> String {
                     lit.push_str(&ind[..hh]);
                 }
                 lit.push_str(*rng.pick(&["\u{a0}", "\u{2003}", "\u{85}", "\u{2028}", "\u{202f}\u{a0}", "\u{1680}"]));
-                lit.push_str(nl);
+                { let t = term!(); lit.push_str(t) };
             }
             8 => {
                 // wrong indentation followed by text
                 lit.push_str(*rng.pick(&["\t", " ", ""]));
                 lit.push_str("misindented");
-                lit.push_str(nl);
+                { let t = term!(); lit.push_str(t) };
             }
             1 => {
                 lit.push_str(&ind);
                 lit.push_str("  deeper  ");
-                lit.push_str(nl);
+                { let t = term!(); lit.push_str(t) };
             }
             2 => {
                 // short line: prefix of the indentation
@@ -1471,7 +1478,7 @@ pub fn mls_family_case(rng: &mut Rng) -> String {
                     h -= 1;
                 }
                 lit.push_str(&ind[..h]);
-                lit.push_str(nl);
+                { let t = term!(); lit.push_str(t) };
             }
             _ => {
                 lit.push_str(&ind);
@@ -1479,7 +1486,7 @@ pub fn mls_family_case(rng: &mut Rng) -> String {
                 if rng.chance(1, 4) {
                     lit.push_str(*rng.pick(&["  ", "\t", " \u{3000}"]));
                 }
-                lit.push_str(nl);
+                { let t = term!(); lit.push_str(t) };
             }
         }
     }
